@@ -1,7 +1,7 @@
 //! C01 — the library case of lib_stage.rs plus an INDEPENDENT account of what each note says:
 //! the characters of every Text / Code / InlineHtml event of pulldown-cmark itself (same Options
 //! as the reader; outside raw HTML blocks and the front matter, which are documented drops /
-//! kept apart), in document order, white space removed.  The reader's blocks must say the same
+//! kept apart) and the destination of every link and image, in document order, white space removed.  The reader's blocks must say the same
 //! (sub-property 3): the C01 predicates otherwise take the reader's output as the note's content
 //! and cannot see a loss inside the reader.
 use crate::gal::*;
@@ -34,6 +34,12 @@ pub fn said(text: &str) -> String {
             Event::End(TagEnd::HtmlBlock) => html = false,
             Event::Start(Tag::MetadataBlock(_)) => meta = true,
             Event::End(TagEnd::MetadataBlock(_)) => meta = false,
+            // every link and image destination, where the link starts
+            Event::Start(Tag::Link { dest_url, .. }) | Event::Start(Tag::Image { dest_url, .. }) => {
+                out.push('\u{1}');
+                squeeze(&dest_url, &mut out);
+                out.push('\u{2}');
+            }
             Event::Text(t) if !html && !meta => squeeze(&t, &mut out),
             Event::Code(t) | Event::InlineHtml(t) => squeeze(&t, &mut out),
             _ => {}
